@@ -137,4 +137,20 @@ def certEvents (A B : Operand) (R : Option Operand) : List Rat :=
     | e :: t => (t.filterMap fun f => crossX e.1 e.2 f.1 f.2) ++ pairs t
   sortDedup ((allE.flatMap fun e => [e.1.x, e.2.x]) ++ pairs allE)
 
+/-- untrusted, for diagnostics when the certificate is refused: the sample point of the first cell
+at which the result is wrong and which has clear margin from the input edges (a concrete failing
+point) -/
+def certWitness (m : Rat) (op : Op) (A B : Operand) (R : Option Operand) (evs : List Rat) : Option P :=
+  let allE := allEdges A.rings ++ allEdges B.rings ++ allEdges (rringsOf R)
+  let rec go : List Rat → Option P
+    | x0 :: x1 :: t =>
+      let xm := (x0 + x1) / 2
+      let L := sortByKey (fun e => yOn e xm) (allE.filter fun e => spansE e x0 x1)
+      let qs : List P := (centres (L.map fun e => yOn e xm)).map fun y => ⟨xm, y⟩
+      match qs.find? fun q => !rightAt op A B R q && clearOf m A.rings q && clearOf m B.rings q with
+      | some q => some q
+      | none => go (x1 :: t)
+    | _ => none
+  go evs
+
 end GeomV.C01
